@@ -12,7 +12,7 @@ open Gen
 /-- the key event of an unmodified key on the Qwerty keyboard, `Qwerty.map(code)`: on Qwerty the matrix
     position, the `KeyCode` and the `KeyIndex` of a key coincide (`Proofs/LayoutTables.lean`, `qwertyKey_spec`:
     `genericMap qwertyKb code 0 = some (qwertyKey code)` for all 63 key codes) -/
-def qwertyKey (code : Nat) : KeyEvent :=
+def qwertyKey (code : Nat) : KeyEv :=
   { index := code, code := code, unicode := qwertyKb.2.1.getD code 0, mods := 0 }
 
 /-- `KeyCode::Backspace` (checked against the generated enum in `Proofs/LayoutTables.lean`) -/
@@ -21,7 +21,7 @@ def keyCodeBackspace : Nat := 52
 /-- the way the editor (`EnteringSyllable::next`) drives a layout from `c`: Backspace is `remove_last`, every
     other key but the last is absorbed, the last one commits; result = the committed syllable (`read()`
     after `Commit`) -/
-def Layout.enter (L : Layout) (c : Nat) : List KeyEvent → Option Nat
+def Layout.enter (L : Layout) (c : Nat) : List KeyEv → Option Nat
   | [] => none
   | [k] =>
     match L.press c k with
@@ -163,7 +163,7 @@ def dc26KeysFor (r : Nat) : List Nat :=
 /-! ### Pinyin -/
 
 /-- the editor's way of driving the Pinyin layout (as `Layout.enter`) -/
-def pinyinEnter (v : Nat) : PinyinState → List KeyEvent → Option Nat
+def pinyinEnter (v : Nat) : PinyinState → List KeyEv → Option Nat
   | _, [] => none
   | st, [k] =>
     match pinyinPress v st k with
